@@ -1,5 +1,411 @@
-/- Driver for C12 (stub until the property's model is written). -/
+/- Driver for C12: replays the system-call traces of the real qmail-local (maildir parent + child,
+   mbox deliveries alone and concurrent, recorded under qsim) through the acceptors of
+   `Nq.LocalDeliver`, compares gfrom()/myctime() with their models, and evaluates the property oracle
+   on the concrete crash states / final mbox files the harness reports. -/
 import Drv.Util
-open Drv
-def handle (st : Stats) (_line : String) : IO Stats := return { st with cases := st.cases + 1 }
-def main : IO Unit := runDriver handle
+import Nq.LocalDeliver
+
+open Nq Nq.LocalDeliver Drv
+
+def kvOf (toks : List String) (k : String) : String :=
+  match toks.find? (fun t => t.startsWith (k ++ "=")) with
+  | some t => (t.drop (k.length + 1)).toString
+  | none => ""
+
+def hash16 (b : Bytes) : String :=
+  let h := hashBytes b
+  String.ofList ((List.range 16).map (fun i => hexDigit ((h >>> (60 - 4 * i.toUInt64)) &&& 15).toUInt8))
+
+def bytesOf (s : String) : Bytes := s.toUTF8.toList
+
+def isPre (a b : Bytes) : Bool := a.length ≤ b.length && b.take a.length == a
+
+/-- all permutations of a short list -/
+def perms : List Nat → List (List Nat)
+  | [] => [[]]
+  | l => l.flatMap (fun x => (perms (l.erase x)).map (x :: ·))
+termination_by l => l.length
+decreasing_by
+  simp_wf
+  rename_i h
+  have := List.length_erase_of_mem h
+  have : 0 < l.length := List.length_pos_of_mem h
+  omega
+
+structure Deliv where
+  msg : Bytes := []
+  sender : Bytes := []
+  started : Bool := false       -- the delivery function has been entered (fork / open_append seen)
+  fd : String := "?"
+  exit : Nat := 999
+  sawTruncFault : Bool := false
+  sawLockFault : Bool := false
+  sawOpenRead : Bool := false
+  pendingJump : Nat := 0
+  deriving Inhabited
+
+structure Case where
+  kind : String := ""
+  hdr : String := ""
+  loc : Bytes := []
+  host : Bytes := []
+  time : Nat := 0
+  faults : String := "-"
+  -- maildir
+  mdSt : Option Md.St := some {}
+  content : Bytes := []
+  dirOk : Bool := true
+  dir : String := ""
+  pid : String := ""
+  hn : Bytes := []
+  pre : List String := []
+  naps : Nat := 0
+  signalled : Bool := false
+  ncalls : Nat := 0
+  childExit : Int := -1
+  errText : Bytes := []
+  -- mbox
+  box : Bytes := []
+  ds : Array Deliv := #[]
+  sys : Option Mb.Sys := none
+  nev : Nat := 0
+  bad : Bool := false
+
+structure D where
+  st : Stats := {}
+  c : Case := {}
+
+/-- case description for report lines: the (first) message is called `in=` so that the shared verdict code picks the
+smallest failing input; the reason comes first so that truncation of long lines cannot cut it off -/
+def hdrFor (c : Case) : String := (c.hdr.replace " msg0=" " in=").replace " msg=" " in="
+
+def disagree (d : D) (why : String) : IO D := do
+  if d.c.bad then return d
+  IO.println s!"DISAGREE what={(why.take 300).toString.replace " " "_"} {hdrFor d.c}"
+  return { d with st := { d.st with disagree := d.st.disagree + 1 }, c := { d.c with bad := true } }
+
+def oracleFail (d : D) (why : String) : IO D := do
+  IO.println s!"ORACLE why={why.replace " " "_"} {hdrFor d.c}"
+  return { d with st := { d.st with oracle := d.st.oracle + 1 } }
+
+/-! ### maildir -/
+
+def baseName (c : Case) (k : Nat) : String :=
+  String.ofList ((maildirName (c.time + 2 * k) c.pid.toNat! c.hn).map (fun b => Char.ofNat b.toNat))
+
+def mdFeed (d : D) (ev : Md.Ev) (what : String) : IO D := do
+  match d.c.mdSt with
+  | none => return d
+  | some s =>
+    match Md.accept { content := d.c.content, dirOk := d.c.dirOk } s ev with
+    | some s' => return { d with c := { d.c with mdSt := some s', nev := d.c.nev + 1 }, st := d.st.bump ("md_" ++ what) }
+    | none =>
+      let d ← disagree d s!"event#{d.c.nev + 1}={what} rejected_at_pc={repr s.pc}"
+      return { d with c := { d.c with mdSt := none } }
+
+def errOf (rest : List String) : String := (rest.find? (fun t => t.startsWith "e" && t.length > 1 && (t.drop 1).toString.toNat?.isSome)).getD ""
+
+def mdLine (d : D) (toks : List String) (raw : String) : IO D := do
+  let c := d.c
+  let forked := c.ds[0]!.started
+  match toks with
+  | ["T", "P0", "fork", "->", _, _] => mdFeed { d with c := { c with ds := c.ds.set! 0 { c.ds[0]! with started := true } } } .fork "fork"
+  | ["T", "P0", "exit", code] => mdFeed d (.parentExit code.toNat!) s!"parentExit{code}"
+  | ["T", "P0", "clockjump", n] => return { d with c := { c with time := if forked then c.time else c.time + n.toNat! } }
+  | ["T", "P1", "clockjump", _] => return d
+  | "T" :: "P0" :: _ => return d                       -- prelude of main(), waitpid: not part of the delivery
+  | ["T", "P1", "alarm", n] => mdFeed d (.alarm n.toNat!) "alarm"
+  | ["T", "P1", "sleep", n] => mdFeed { d with c := { c with naps := c.naps + 1 } } (.sleep n.toNat!) "sleep"
+  | "T" :: "P1" :: "KILLED" :: _ => mdFeed { d with c := { c with signalled := true } } .childKilled "childKilled"
+  | ["T", "P1", "signal", "14"] => mdFeed { d with c := { c with signalled := true } } .sigAlarm "sigAlarm"
+  | ["T", "P1", "exit", code] => mdFeed { d with c := { c with childExit := code.toNat! } } (.childExit code.toNat!) s!"childExit{code}"
+  | "T" :: "P1" :: _ :: "open_excl" :: path :: "->" :: r :: rest =>
+    if path != s!"{c.dir}/tmp/{baseName c c.naps}" then disagree d s!"open_excl of unexpected name {path} (expected tmp/{baseName c c.naps})" else
+    if r != "-1" then mdFeed { d with c := { c with ds := c.ds.set! 0 { c.ds[0]! with fd := r } } } (.openExcl true false) "openExcl"
+    else mdFeed d (.openExcl false (errOf rest == "e17")) (if errOf rest == "e17" then "openExclEEXIST" else "openExcl!")
+  | "T" :: "P1" :: _ :: "read" :: "0" :: "->" :: r :: rest =>
+    if r == "-1" then mdFeed d (.readErr (errOf rest == "e4")) (if errOf rest == "e4" then "readEINTR" else "read!")
+    else mdFeed d (.read r.toNat!) "read"
+  | "T" :: "P1" :: _ :: "write" :: fd :: rest =>
+    if fd != c.ds[0]!.fd then disagree d s!"write to unexpected descriptor {fd}" else
+    if rest.contains "-1" then mdFeed d (.writeErr (errOf rest == "e4")) (if errOf rest == "e4" then "writeEINTR" else "write!")
+    else match unhex (kvOf rest "data") with
+      | some bs => mdFeed d (.write bs) "write"
+      | none => disagree d "unparsed write"
+  | "T" :: "P1" :: _ :: "fsync" :: fd :: rest =>
+    if fd != c.ds[0]!.fd then disagree d s!"fsync of unexpected descriptor {fd}" else
+    mdFeed d (.fsync (!rest.contains "-1")) (if rest.contains "-1" then "fsync!" else "fsync")
+  | ["T", "P1", "close", fd] => if fd == c.ds[0]!.fd then mdFeed d (.close true) "close" else return d
+  | "T" :: "P1" :: _ :: "close" :: fd :: "->" :: "-1" :: _ => if fd == c.ds[0]!.fd then mdFeed d (.close false) "close!" else return d
+  | "T" :: "P1" :: _ :: "link" :: a :: b :: "->" :: r :: _ =>
+    let nm := baseName c c.naps
+    if a != s!"{c.dir}/tmp/{nm}" || b != s!"{c.dir}/new/{nm}" then disagree d s!"link of unexpected names {a} {b}" else
+    mdFeed d (.link (r != "-1")) (if r != "-1" then "link" else "link!")
+  | "T" :: "P1" :: _ :: "unlink" :: a :: "->" :: r :: _ =>
+    if a != s!"{c.dir}/tmp/{baseName c c.naps}" then disagree d s!"unlink of unexpected name {a}" else
+    mdFeed d (.unlinkTmp (r != "-1")) "unlinkTmp"
+  | _ => let _ := forked; disagree d s!"unparsed_call={raw.trimAscii.toString.take 140}"
+
+/-- the property on one concrete crash state -/
+def mdOracle (c : Case) (k : Nat) (toks : List String) : Option String :=
+  let listOf := fun (key : String) => let v := kvOf toks key; if v == "-" || v == "" then [] else v.splitOn ","
+  let news := listOf "new"
+  let tmps := listOf "tmp"
+  let preNew := (c.pre.filter (·.startsWith "new/")).map (fun s => (s.drop 4).toString)
+  let preTmp := (c.pre.filter (·.startsWith "tmp/")).map (fun s => (s.drop 4).toString)
+  -- a delivered message (new/) must never be touched; a stale tmp/ file carrying this very (time,pid,host) name may be
+  -- removed by the alarm handler's tryunlinktmp() (it can belong to no live delivery), never otherwise
+  if !(preNew.all news.contains) || (!c.signalled && !(preTmp.all tmps.contains)) then some "a file that existed before the delivery was changed or removed"
+  else
+    let own := news.filter (fun s => !preNew.contains s)
+    let want := s!"{c.content.length}:{hash16 c.content}"
+    let okNames := [0, 1, 2].map (fun j => s!"{baseName c j}:{want}")
+    if own.length > 1 then some "more than one new file"
+    else if !(own.all okNames.contains) then some s!"new/ holds an incomplete, wrong or misnamed file: {own}"
+    else
+      let final := k == c.ncalls + 1
+      let exit := c.ds[0]!.exit
+      if final && exit == 0 && own.isEmpty then some "success reported but no complete message in new/"
+      else if final && exit != 0 && !own.isEmpty && !c.signalled then some "failure reported but the message is in new/"
+      else none
+
+/-! ### mbox -/
+
+def procIdx (p : String) : Option Nat :=
+  match p with | "P0" => some 0 | "P2" => some 1 | "P4" => some 2 | _ => none
+
+def entryOf (c : Case) (i : Nat) : Bytes :=
+  let dl := c.ds[i]!
+  mboxEntry (ufline dl.sender c.time) (Local.rpline dl.sender) (Local.dtline c.loc c.host) dl.msg
+
+def mbFeed (d : D) (i : Nat) (ev : Mb.Ev) (what : String) : IO D := do
+  match d.c.sys with
+  | none => return d
+  | some y =>
+    match Mb.sysStep (entryOf d.c) y i ev with
+    | some y' => return { d with c := { d.c with sys := some y', nev := d.c.nev + 1 }, st := d.st.bump ("mb_" ++ what) }
+    | none =>
+      let d ← disagree d s!"event#{d.c.nev + 1}=P{2 * i}:{what} rejected_at_pc={repr (y.st i).pc} holder={y.holder}"
+      return { d with c := { d.c with sys := none } }
+
+def setD (c : Case) (i : Nat) (f : Deliv → Deliv) : Case := { c with ds := c.ds.set! i (f c.ds[i]!) }
+
+def mbLine (d : D) (toks : List String) (raw : String) : IO D := do
+  let c := d.c
+  match toks with
+  | "T" :: p :: rest =>
+    match procIdx p with
+    | none => disagree d s!"unexpected process {p}"
+    | some i =>
+      if i ≥ c.ds.size then disagree d s!"unexpected process {p}" else
+      let dl := c.ds[i]!
+      let flen := match c.sys with | some y => y.file.length | none => 0
+      match rest with
+      | ["clockjump", n] =>
+        -- virtual time jumps (fault kind -3) just before the call traced next; `starttime = now()` is taken after
+        -- bouncexf()'s reads and before the first open_read of main()
+        return { d with c := setD c i (fun x => { x with pendingJump := n.toNat! }) }
+      | _ :: "open_read" :: _ => return { d with c := setD c i (fun x => { x with sawOpenRead := true, pendingJump := 0 }) }
+      | _ :: "stat" :: _ =>
+        return { d with c := if dl.sawOpenRead then c else setD { c with time := c.time + dl.pendingJump } i (fun x => { x with pendingJump := 0 }) }
+      | ["exit", code] => mbFeed { d with c := setD c i (fun x => { x with exit := code.toNat! }) } i (.exit code.toNat!) s!"exit{code}"
+      | _ :: "open_append" :: _ :: "->" :: r :: _ =>
+        mbFeed { d with c := setD c i (fun x => { x with started := true, fd := r }) } i (.openAppend (r != "-1")) (if r != "-1" then "openAppend" else "openAppend!")
+      | _ =>
+        if !dl.started then
+          -- prelude of main(): only a clock jump before `now()` matters
+          return { d with c := if dl.sawOpenRead then c else setD { c with time := c.time + dl.pendingJump } i (fun x => { x with pendingJump := 0 }) }
+        else
+        match rest with
+        | ["alarm", n] => mbFeed d i (.alarm n.toNat!) "alarm"
+        | ["signal", "14"] => mbFeed d i .sigAlarm "sigAlarm"
+        | _ :: "flock" :: r =>
+          if r.contains "-1" then mbFeed { d with c := setD c i (fun x => { x with sawLockFault := true }) } i (.flock false flen) "flock!"
+          else mbFeed d i (.flock true flen) "flock"
+        | _ :: "read" :: "0" :: "->" :: r :: more =>
+          if r == "-1" then mbFeed d i (.readErr (errOf more == "e4")) (if errOf more == "e4" then "readEINTR" else "read!")
+          else mbFeed d i (.read r.toNat!) "read"
+        | _ :: "write" :: fd :: more =>
+          if fd != dl.fd then disagree d s!"write to unexpected descriptor {fd}" else
+          if more.contains "-1" then mbFeed d i (.writeErr (errOf more == "e4")) (if errOf more == "e4" then "writeEINTR" else "write!")
+          else
+            if kvOf more "off" != toString flen then disagree d s!"append at offset {kvOf more "off"} but the file has {flen} bytes" else
+            match unhex (kvOf more "data") with
+            | some bs => mbFeed d i (.write bs) "write"
+            | none => disagree d "unparsed write"
+        | _ :: "fsync" :: fd :: more =>
+          if fd != dl.fd then disagree d s!"fsync of unexpected descriptor {fd}" else
+          mbFeed d i (.fsync (!more.contains "-1")) (if more.contains "-1" then "fsync!" else "fsync")
+        | _ :: "ftruncate" :: fd :: more =>
+          if fd != dl.fd then disagree d s!"ftruncate of unexpected descriptor {fd}" else
+          if more.contains "-1" then mbFeed { d with c := setD c i (fun x => { x with sawTruncFault := true }) } i (.ftrunc (match c.sys with | some y => (y.st i).pos | none => 0) false) "ftrunc!"
+          else mbFeed d i (.ftrunc (kvOf more "len").toNat! true) "ftrunc"
+        | ["close", fd] => if fd == dl.fd then mbFeed d i .close "close" else return d
+        | _ :: "close" :: fd :: "->" :: "-1" :: _ => if fd == dl.fd then mbFeed d i .close "close!" else return d
+        | _ => disagree d s!"unparsed_call={raw.trimAscii.toString.take 140}"
+  | _ => return d
+
+/-- the From_ line mbox(5) prescribes for this sender: "From " word " " 24 characters LF -/
+def fromLineOk (fl sender : Bytes) : Bool :=
+  let w := ufSender sender
+  isPre ([70, 114, 111, 109, 32] ++ w ++ [SP]) fl && fl.length == 5 + w.length + 1 + 24 + 1 &&
+  fl.getLast? == some LF && !(fl.dropLast.contains LF) && Mbox.envSender fl == w
+
+/-- the property on the final mbox file -/
+def mbOracle (c : Case) (file : Bytes) : Option String :=
+  let n := c.ds.size
+  let idx := List.range n
+  let attempted := idx.filter (fun i => c.ds[i]!.started)
+  let okIdx := idx.filter (fun i => c.ds[i]!.exit == 0)
+  let unlocked := idx.any (fun i => c.ds[i]!.sawLockFault || c.ds[i]!.sawTruncFault)
+  if attempted.any (fun i => c.ds[i]!.exit != 0 && c.ds[i]!.exit != 111) then some "a failed delivery is not reported as a temporary failure (111)"
+  else if !isPre c.box file then some "the previous content of the mbox file was changed"
+  else if okIdx.isEmpty && !unlocked && file != c.box then some "every delivery failed but the file was not restored to its previous length"
+  else if unlocked then none       -- outside the hypotheses (lock_ex or ftruncate failed): reported as a counter
+  else if !Mbox.AtBoundary c.box then
+    -- the old file ends inside a line: only append-only-ness and the length of what was added can be judged
+    none
+  else
+    let got := Mbox.mboxRead file
+    let old := Mbox.mboxRead c.box
+    if !isPre' old got then some "messages already in the mbox are no longer read back unchanged"
+    else
+      let added := got.drop old.length
+      if added.length != okIdx.length then some s!"{okIdx.length} deliveries reported success but the reader finds {added.length} new messages"
+      else
+        let want := fun (i : Nat) => Mbox.completeLastLine (Local.rpline c.ds[i]!.sender ++ Local.dtline c.loc c.host ++ c.ds[i]!.msg)
+        let fits := fun (p : List Nat) => (p.zip added).all (fun (i, m) => m.2 == want i && fromLineOk m.1 c.ds[i]!.sender)
+        if (perms okIdx).any fits then none
+        else some "the reader does not split and unquote the appended entries back to the delivered messages (interleaved or wrongly quoted)"
+where
+  isPre' (a b : List (Bytes × Bytes)) : Bool := a.length ≤ b.length && b.take a.length == a
+
+/-! ### line dispatch -/
+
+def newCase (d : D) (rest : List String) : IO D := do
+  let kind := kvOf rest "kind"
+  let hl := " ".intercalate rest
+  let h := hashBytes (bytesOf hl)
+  let fresh := !d.st.seen.contains h
+  let mut st : Stats := { d.st with cases := d.st.cases + 1, seen := d.st.seen.insert h, nontrivial := d.st.nontrivial + (if fresh then 1 else 0) }
+  st := st.bump ("kind_" ++ kind)
+  if st.samples < 4 && hl.length < 400 && (st.cases % 7 == 1) then
+    IO.println s!"SAMPLE {hl}"
+    st := { st with samples := st.samples + 1 }
+  let loc := (unhex (kvOf rest "local")).getD []
+  let host := (unhex (kvOf rest "host")).getD []
+  let time := (kvOf rest "time").toNat!
+  if kind == "md" then
+    let msg := (unhex (kvOf rest "msg")).getD []
+    let sender := (unhex (kvOf rest "sender")).getD []
+    let pre := kvOf rest "pre"
+    let col := kvOf rest "collide"
+    if (kvOf rest "faults") != "-" then st := st.bump "with_fault"
+    let c : Case := { kind := kind, hdr := hl, loc := loc, host := host, time := time, faults := (kvOf rest "faults"),
+                      content := maildirContent (Local.rpline sender) (Local.dtline loc host) msg, dirOk := col != "9", dir := kvOf rest "dir",
+                      pid := kvOf rest "pid", hn := (unhex (kvOf rest "hn")).getD [], pre := (if pre == "-" then [] else pre.splitOn ","),
+                      ds := #[{ msg := msg, sender := sender }] }
+    return { st := st, c := c }
+  else
+    let n := (kvOf rest "n").toNat!
+    let bx := kvOf rest "box"
+    let box := if bx == "absent" then [] else (unhex bx).getD []
+    let ds := (List.range n).map (fun i => ({ msg := (unhex (kvOf rest s!"msg{i}")).getD [], sender := (unhex (kvOf rest s!"sender{i}")).getD [] } : Deliv))
+    if (kvOf rest "faults") != "-" then st := st.bump "with_fault"
+    let c : Case := { kind := kind, hdr := hl, loc := loc, host := host, time := time, faults := (kvOf rest "faults"),
+                      box := box, ds := ds.toArray, sys := some { file := box } }
+    return { st := st, c := c }
+
+def handle (d : D) (line : String) : IO D := do
+  let toks := fields line
+  match toks with
+  | ["G", hx, r] =>
+    let l := (unhex hx).getD []
+    let mut st := { d.st with cases := d.st.cases + 1, nontrivial := d.st.nontrivial + 1 }
+    st := st.bump (if r == "1" then "gfrom_true" else "gfrom_false")
+    let m := gfrom l
+    if (r == "1") != m then
+      IO.println s!"DISAGREE kind=gf in={hx} impl={r} model={m}"
+      st := { st with disagree := st.disagree + 1 }
+    if (r == "1") != (Mbox.isFromLine l || Mbox.isQuoted l) then
+      IO.println s!"ORACLE kind=gf in={hx} why=gfrom_differs_from_the_documented_From_/>From_line_test impl={r}"
+      st := { st with oracle := st.oracle + 1 }
+    return { d with st := st }
+  | ["C", t, hx] =>
+    let txt := (unhex hx).getD []
+    let mut st := { d.st with cases := d.st.cases + 1, nontrivial := d.st.nontrivial + 1 }
+    st := st.bump "myctime"
+    let m := myctime t.toNat!
+    if m != txt then
+      IO.println s!"DISAGREE kind=ct time={t} impl={hx} model={hex m}"
+      st := { st with disagree := st.disagree + 1 }
+    if !(txt.length == 25 && txt.getLast? == some LF && !(txt.dropLast.contains LF)) then
+      IO.println s!"ORACLE kind=ct time={t} why=date_is_not_24_characters_and_a_newline impl={hx}"
+      st := { st with oracle := st.oracle + 1 }
+    return { d with st := st }
+  | "CASE" :: rest => newCase d rest
+  | "T" :: _ =>
+    if d.c.bad then return d
+    if toks.contains "CRASH" then return d
+    if d.c.kind == "md" then mdLine d toks line else mbLine d toks line
+  | "EXIT" :: rest =>
+    let c := d.c
+    if c.kind == "md" then
+      let code := (rest.head?.getD "999").toNat!
+      let c := { c with ds := c.ds.set! 0 { c.ds[0]! with exit := code }, ncalls := (kvOf rest "ncalls").toNat!, errText := (unhex (kvOf rest "err")).getD [] }
+      let mut d := { d with c := c }
+      match c.mdSt with
+      | some s =>
+        match s.pc with
+        | .done _ => pure ()
+        | _ => d ← disagree d s!"trace ended at pc={repr s.pc}"
+        -- the message printed for the user: text of the `switch` in maildir(), regenerated from the source
+        if s.forked && code != 0 then
+          let want := match s.pc with
+            | .done _ => if s.interrupted && c.childExit < 0 then bytesOf Gen.LocalExit.childCrashedText else bytesOf (parentText c.childExit.toNat)
+            | _ => []
+          if c.errText != want ++ [LF] then d ← disagree d s!"diagnostic={hex c.errText} expected={hex (want ++ [LF])}"
+        if s.forked && code != 0 && code != 111 then d ← oracleFail d s!"maildir failure reported with exit code {code}, not the temporary failure 111"
+      | none => pure ()
+      return d
+    else
+      let codes := rest.takeWhile (fun t => !t.contains '=')
+      let ds := (List.range c.ds.size).map (fun i => { c.ds[i]! with exit := (codes.getD i "999").toNat! })
+      let mut d := { d with c := { c with ds := ds.toArray } }
+      match c.sys with
+      | some y =>
+        for i in List.range c.ds.size do
+          match (y.st i).pc with
+          | .done _ => pure ()
+          | pc => d ← disagree d s!"trace of P{2 * i} ended at pc={repr pc}"
+      | none => pure ()
+      return d
+  | "S" :: k :: mode :: rest =>
+    let st := d.st.bump "crash_states"
+    match mdOracle d.c k.toNat! rest with
+    | none => return { d with st := st }
+    | some why => oracleFail { d with st := st } s!"{why} crash_before_call={k} resolution={mode}"
+  | ["F", hx] =>
+    let file := if hx == "absent" then [] else (unhex hx).getD []
+    let mut d := d
+    match d.c.sys with
+    | some y => if y.file != file then d ← disagree d s!"final file differs from the model's: impl={hx.take 300} model={(hex y.file).take 300}"
+    | none => pure ()
+    let c := d.c
+    if (List.range c.ds.size).any (fun i => c.ds[i]!.sawLockFault || c.ds[i]!.sawTruncFault) then d := { d with st := d.st.bump "outside_hypotheses_lock_or_truncate_failed" }
+    if !Mbox.AtBoundary c.box then d := { d with st := d.st.bump "old_box_not_at_line_boundary" }
+    match mbOracle c file with
+    | none => return d
+    | some why => oracleFail d why
+  | _ => return d
+
+partial def loop2 (h : IO.FS.Stream) (d : D) : IO D := do
+  let line ← h.getLine
+  if line.isEmpty then return d
+  let d' ← handle d line
+  loop2 h d'
+
+def main : IO Unit := do
+  let stdin ← IO.getStdin
+  let d ← loop2 stdin {}
+  IO.println s!"STATS {d.st.json}"
